@@ -151,6 +151,8 @@ fn run_sync_validators(
     context: Arc<ValidationContext>,
     validators: Vec<Box<dyn ValidatorSync>>,
 ) -> anyhow::Result<HashMap<PathBuf, Vec<Violation>>> {
+    #[cfg(feature = "verif")]
+    use crate::verif_hooks::fake_std as std;
     let mut handles = Vec::new();
     for validator in validators {
         let context = Arc::clone(&context);
@@ -182,6 +184,8 @@ fn run_async_validators(
     context: Arc<ValidationContext>,
     validators: Vec<Box<dyn ValidatorAsync>>,
 ) -> anyhow::Result<HashMap<PathBuf, Vec<Violation>>> {
+    #[cfg(feature = "verif")]
+    use crate::verif_hooks::fake_tokio as tokio;
     let tokio_runtime = tokio::runtime::Runtime::new()?;
     tokio_runtime.block_on(async move {
         let mut tasks = tokio::task::JoinSet::new();
@@ -216,6 +220,8 @@ pub fn run(
     sync_validators: Vec<Box<dyn ValidatorSync>>,
     async_validators: Vec<Box<dyn ValidatorAsync>>,
 ) -> anyhow::Result<HashMap<PathBuf, Vec<Violation>>> {
+    #[cfg(feature = "verif")]
+    use crate::verif_hooks::fake_std as std;
     if async_validators.is_empty() {
         return run_sync_validators(context, sync_validators);
     }
